@@ -354,7 +354,20 @@ pub fn ranges_arg(s: &str) -> ChunkRanges {
     ranges_of(&parse_list(s))
 }
 
-/// `enc <blob> <bs> <store> <sync|fsm|mixed> <plain|val> <ranges> <corruption>`
+/// a sink that accepts at most `.1` bytes per `write` call
+pub struct ShortWrite<'a>(pub &'a mut Vec<u8>, pub usize);
+impl std::io::Write for ShortWrite<'_> {
+    fn write(&mut self, buf: &[u8]) -> std::io::Result<usize> {
+        let n = buf.len().min(self.1);
+        self.0.extend_from_slice(&buf[..n]);
+        Ok(n)
+    }
+    fn flush(&mut self) -> std::io::Result<()> {
+        Ok(())
+    }
+}
+
+/// `enc <blob> <bs> <store> <sync|syncw<k>|fsm|mixed> <plain|val> <ranges> <corruption>`
 pub fn op_enc(args: &[&str]) -> String {
     let mut data = blob(args[0]);
     let bs = bs_of(args[1]);
@@ -372,12 +385,14 @@ pub fn op_enc(args: &[&str]) -> String {
     }
     corrupt(&cor, &mut data, &mut ob);
     match fl {
-        "sync" => {
+        // `syncw<k>`: the sink is a legal `Write` that accepts at most k bytes per call (a socket under back pressure)
+        f if f == "sync" || f.starts_with("syncw") => {
+            let k: usize = f.strip_prefix("syncw").map(|k| k.parse().unwrap()).unwrap_or(usize::MAX);
             let mut out = Vec::new();
             let (r, _) = with_sync_store!(kind, root, tree, ob, |o| if val {
-                sync::encode_ranges_validated(&data[..], &o, &ranges, &mut out)
+                sync::encode_ranges_validated(&data[..], &o, &ranges, ShortWrite(&mut out, k))
             } else {
-                sync::encode_ranges(&data[..], &o, &ranges, &mut out)
+                sync::encode_ranges(&data[..], &o, &ranges, ShortWrite(&mut out, k))
             });
             format!("{} {}", r.map(|_| "Ok".to_string()).unwrap_or_else(|e| enc_err(&e)), dig(&out))
         }
